@@ -2,7 +2,7 @@
 C03 / C12 (source tie) — the hand-written model of the decision `CertAuth::process_child_revoke_key`
 takes on a child's RFC 6492 revocation request (`KM.Ca.processChildRevokeKey`, Ca/Objects.lean) equals
 the definition that the translator `pure_fns` regenerates from `/repo/src/server/ca/certauth.rs` on every
-run (`Generated/PureFns.lean`, `KM.Gen.CertAuth.process_child_revoke_key`).
+run (`Generated/PureFnsC03.lean`, `KM.Gen.CertAuth.process_child_revoke_key`).
 
 `revoke_request_effective` (Props/C03.lean) and the revocation arm of `scope_of_accepted` (Props/C12.lean)
 are about this decision: the class name the child uses is translated to the parent's FIRST, then the
@@ -20,7 +20,7 @@ child is refused before: C12), `child.used_keys.get(&key)` ↦ the model's assoc
 (`some rcn` = `InUse(rcn)`, `none` = `Revoked`), `Ok(vec![])` ↦ `.ok none`, the two revocation events for
 `my_rcn` ↦ `.ok (some my_rcn)`.
 -/
-import KrillModel.Generated.PureFns
+import KrillModel.Generated.PureFnsC03
 import KrillModel.Ca.Objects
 namespace KM.Props.C03Src
 open KM.Ca.Pub
